@@ -64,6 +64,7 @@ type c16 struct {
 	vals    []c16Val
 	creator sdk.AccAddress
 	raGauge []uint64
+	baseG   []uint64 // perpetual asset gauges of the base state: ids below / between the rollapp gauges
 	qs      sponskeeper.QueryServer
 
 	// per trace
@@ -72,28 +73,30 @@ type c16 struct {
 	changed bool
 	minVP   math.Int
 	minAl   math.Int
-	assetG  []uint64          // asset gauges (perpetual first)
-	nonPerp uint64            // a non perpetual asset gauge
-	eG      []uint64          // endorsement gauges
-	eGr     map[uint64]int    // endorsement gauge -> rollapp index
+	assetG  []uint64       // asset gauges (perpetual first)
+	nonPerp uint64         // a non perpetual asset gauge
+	eG      []uint64       // endorsement gauges
+	eGr     map[uint64]int // endorsement gauge -> rollapp index
 	unb     map[[2]int][]c16Unb
 	slashed bool
 	curDel  int // delegator of the staking message being executed (-1 otherwise)
 
 	// monitor state
-	gDisc   map[uint64]string // gauge -> (distribution − Σ votes) as string
-	vpDisc  string
-	pDisc   map[int]string      // actor -> (vote.vp − staking power)
-	lowKept map[int]bool        // actor keeps a vote while staking power < min
-	invBrk  map[string]bool     // registered invariant currently broken
-	recBad  bool
-	negs    string
-	weekNo  int64
-	claimed map[uint64]math.Int // per endorsement gauge: claimed in the current distribution epoch
-	allot   map[uint64]math.Int // per endorsement gauge: allotment of the current distribution epoch
-	claimBy map[int]int         // actor -> number of claims in the current distribution epoch
-	votedIn map[int]bool        // actor voted in the current distribution epoch
-	rep     map[uint64]bool     // gauge had a repeated claimer in this epoch
+	gDisc      map[uint64]string // gauge -> (distribution − Σ votes) as string
+	vpDisc     string
+	pDisc      map[int]string // actor -> (vote.vp − staking power)
+	distrEnded bool
+	sDisc      map[int]string  // rollapp -> (total shares − Σ votes' power on its gauge)
+	lowKept    map[int]bool    // actor keeps a vote while staking power < min
+	invBrk     map[string]bool // registered invariant currently broken
+	recBad     bool
+	negs       string
+	weekNo     int64
+	claimed    map[uint64]math.Int // per endorsement gauge: claimed in the current distribution epoch
+	allot      map[uint64]math.Int // per endorsement gauge: allotment of the current distribution epoch
+	claimBy    map[int]int         // actor -> number of claims in the current distribution epoch
+	votedIn    map[int]bool        // actor voted in the current distribution epoch
+	rep        map[uint64]bool     // gauge had a repeated claimer in this epoch
 }
 
 func c16Int(s string) math.Int {
@@ -149,8 +152,17 @@ func newC16(t *testing.T, r *Run) *c16 {
 		}
 		h.vals = append(h.vals, c16Val{op: op, val: val, cons: sdk.ConsAddress(pk.Address())})
 	}
-	// rollapps (RollappCreated hook: rollapp gauge + endorsement)
+	// rollapps (RollappCreated hook: rollapp gauge + endorsement).  A perpetual asset gauge is created
+	// BEFORE each rollapp so that non-rollapp gauges have ids below and between the rollapp gauges:
+	// distribution updates are sorted by gauge id, so a mixed vote then has a non-rollapp entry in front
+	// of a rollapp entry (UpdateTotalSharesWithDistribution must walk past it).
 	for i, id := range c16RollappIDs {
+		bg, err := f.App.IncentivesKeeper.CreateAssetGauge(f.Ctx, true, h.creator, sdk.Coins{},
+			lockuptypes.QueryCondition{LockQueryType: lockuptypes.ByDuration, Denom: h.bond, Duration: time.Hour}, f.Time, 1)
+		if err != nil {
+			t.Fatalf("base asset gauge: %v", err)
+		}
+		h.baseG = append(h.baseG, bg)
 		alias := []string{"verifa", "verifb"}[i]
 		apptesting.FundForAliasRegistration(f.App, f.Ctx, alias, apptesting.Alice)
 		msg := &rollapptypes.MsgCreateRollapp{
@@ -566,6 +578,16 @@ func (h *c16) exec(line string) (string, string) {
 			} else {
 				h.nonPerp = id
 			}
+		case "bgauge":
+			ok := false
+			for _, g := range h.baseG {
+				if fmt.Sprint(g) == arg(2) {
+					ok = true
+				}
+			}
+			if !ok {
+				f.T.Fatalf("hdr bgauge: %q", line)
+			}
 		case "rollapp":
 			r := c16Idx(arg(2))
 			if r < 0 || r >= len(h.raGauge) || fmt.Sprint(h.raGauge[r]) != arg(3) {
@@ -771,6 +793,7 @@ func (h *c16) resetTrace() {
 	h.assetG, h.nonPerp, h.eG, h.eGr = nil, 0, nil, map[uint64]int{}
 	h.unb = map[[2]int][]c16Unb{}
 	h.gDisc, h.vpDisc, h.pDisc, h.lowKept, h.invBrk = map[uint64]string{}, "0", map[int]string{}, map[int]bool{}, map[string]bool{}
+	h.sDisc = map[int]string{}
 	h.weekNo = h.f.App.EpochsKeeper.GetEpochInfo(h.f.Ctx, h.f.App.IncentivesKeeper.GetParams(h.f.Ctx).DistrEpochIdentifier).CurrentEpoch
 	h.claimed, h.allot, h.claimBy, h.votedIn, h.rep = map[uint64]math.Int{}, map[uint64]math.Int{}, map[int]int{}, map[int]bool{}, map[uint64]bool{}
 }
@@ -871,6 +894,32 @@ func (h *c16) monitorState(kind, cls string) {
 		}
 		h.vpDisc = x
 	}
+	// endorsement shares: TotalShares of a rollapp's endorsement = Σ over the votes of their power on the
+	// rollapp gauge (what the claim divides by, once snapshotted into EpochShares)
+	ns := map[int]string{}
+	for i, id := range c16RollappIDs {
+		e, err := f.App.SponsorshipKeeper.GetEndorsement(f.Ctx, id)
+		if err != nil {
+			continue
+		}
+		want := math.ZeroInt()
+		for _, v := range votes {
+			want = want.Add(v.GetGaugePower(e.RollappGaugeId))
+		}
+		if x := e.TotalShares.Sub(want); !x.IsZero() {
+			ns[i] = x.String()
+			if h.sDisc[i] != ns[i] {
+				h.r.Violate("C16/endorsement_shares/total-shares-ne-sum-of-votes/"+oc,
+					fmt.Sprintf("after `%s`: endorsement of r%d has total shares %s, the votes' power on its rollapp gauge %d sums to %s", kind, i, e.TotalShares, e.RollappGaugeId, want), h.lines...)
+			}
+		}
+		if h.distrEnded && !e.EpochShares.Equal(e.TotalShares) {
+			h.r.Violate("C16/endorsement_shares/epoch-snapshot-ne-total-shares",
+				fmt.Sprintf("after the distribution epoch ended: r%d epoch shares %s, total shares %s", i, e.EpochShares, e.TotalShares), h.lines...)
+		}
+	}
+	h.sDisc = ns
+	h.distrEnded = false
 	// clause: each voter's recorded power = current bonded delegations; below the minimum -> vote gone
 	np, nl := map[int]string{}, map[int]bool{}
 	for a, v := range votes {
@@ -990,6 +1039,7 @@ func (h *c16) distrEpoch() int64 {
 func (h *c16) monitorEpoch(ended []string) {
 	if n := h.distrEpoch(); n != h.weekNo {
 		h.weekNo = n
+		h.distrEnded = true
 		h.claimed, h.allot, h.claimBy, h.votedIn, h.rep = map[uint64]math.Int{}, map[uint64]math.Int{}, map[int]int{}, map[int]bool{}, map[uint64]bool{}
 		h.r.Hit("epoch-distribution-identifier")
 	} else if len(ended) > 0 {
